@@ -148,3 +148,12 @@ def trig_tables(dirs, theta=90.0):
     """sin/cos of (180 + theta - dir) in radians: the published convention of momd/dm."""
     a = np.radians(180.0 + theta - np.asarray(dirs, dtype=float))
     return np.sin(a), np.cos(a)
+
+
+def bin_width(dirs):
+    """Direction bin width of the property statement: spacing of the uniform grid, taken the short way round the
+    circle between the first two stored directions; 1.0 for a single direction or a 1-D spectrum."""
+    if dirs is None or len(dirs) < 2:
+        return 1.0
+    d = abs(float(dirs[1]) - float(dirs[0]))
+    return min(d, 360.0 - d)
